@@ -47,6 +47,16 @@ CHECKS.update({
    text="Full cartesian product of all 28 leaf / leaf-list types under /vt:top x {simple, wrapper unions} x 164 JSON texts (285 thorough: every JSON kind, integer boundaries +-1 and +-0.5 as number and string, exponent/hex/NaN/Inf/sign/whitespace spellings, base64 variants, enum names with and without (foreign) module prefixes, [null] variants) through Unmarshal and SetNode(json_ietf) and 176 TypedValue messages (228 thorough) through SetNode with and without TolerateJSONInconsistencies. Each outcome must lie in the allowed set of an independent three-valued reference decoder ({reject}, {v}, or {reject,v} for lenient lexical forms) and every accepted value must re-render to the same value.",
    technique="exhaustive cartesian enumeration (leaf type x input atom x entry point) on the real decoders against an independent three-valued reference decoder plus a re-render law", note=VAL_NOTE),
 })
+
+SEQ_NOTE = "trusted base: the reflection driver for generated helpers (core/seqlist.go), the slice-of-pairs / map reference models, reflect; histories longer than the depth bound, key domains beyond 3 keys and lists nested in list entries are not covered"
+CHECKS.update({
+ "C15": dict(engine="seqmc", cat="model_checking", sec="5/C15",
+   text="Breadth-first search over API call histories of the generated ordered maps (12 ordered lists incl. single-key, two-key and the OpenConfig rule list, in simple/wrapper/compressed packages): alphabet Append, Append(nil), Append(nil-key entry), AppendNew, Delete, Get, Keys, Values, Len and the parent's AppendNew/Append/Get/Delete helpers over a 3-key domain from nil and empty receivers, depth 5 (thorough 6); every successor is obtained by replaying the history on a fresh real object, states deduplicated by canonical state. After every call the map must equal an insertion-ordered reference (slice of key/identity pairs); rejected and read-only calls leave a reflection dump (unexported fields included) unchanged; Keys/Values return copies; in every reached state the order survives JSON, gNMI and DeepCopy. All undeduplicated histories of length 3 (4) are executed as a cross-check.",
+   technique="explicit-state BFS over call histories of the real generated code against a reference model, every trace executed on the implementation", note=SEQ_NOTE),
+ "C34": dict(engine="seqmc", cat="model_checking", sec="5/C34",
+   text="Breadth-first search over call histories of the generated keyed-list helpers New/GetOrCreate/Get/Append/Append(nil-key)/Delete/Rename for one list per Go key type (string, int64, uint64, decimal, bool, enum, identityref, union, leafref, two-key; 22 lists in simple/wrapper/compressed packages) over a 3-key domain, depth 5 (thorough 6), replayed on fresh real objects and compared after every call with a reference map from key tuple to entry identity: key leaves equal the map key in every state, rejected calls change nothing, GetOrCreate is idempotent, Get never creates, Rename moves the same object and rewrites its key leaves.",
+   technique="explicit-state BFS over call histories of the real generated code against a reference map, every trace executed on the implementation", note=SEQ_NOTE),
+})
 ALL = [json.loads(l)["id"] for l in open(os.path.join(V, "properties.jsonl"))]
 NA = {
 }
